@@ -681,13 +681,16 @@ func rapidishSuffix(how int) string {
 
 // SortMaps returns the typed value with every typed map (and every map inside Any content)
 // in DAG-CBOR canonical key order: what decoding a canonical encoding produces.
-func SortMaps(s *Schema, typ string, tv TV) TV {
+func SortMaps(s *Schema, typ string, tv TV) TV { return SortMapsBy(s, typ, tv, val.LessLenFirst) }
+
+// SortMapsBy is SortMaps for an arbitrary key order (bytewise for DAG-JSON).
+func SortMapsBy(s *Schema, typ string, tv TV, less func(a, b string) bool) TV {
 	if tv.K == "null" || tv.K == "absent" {
 		return tv
 	}
 	if IsBuiltin(typ) {
 		if typ == "Any" {
-			tv.V = tv.V.SortKeys(val.LessLenFirst)
+			tv.V = tv.V.SortKeys(less)
 		}
 		return tv
 	}
@@ -697,7 +700,7 @@ func SortMaps(s *Schema, typ string, tv TV) TV {
 	switch ty.Kind {
 	case "list":
 		for i, it := range tv.Items {
-			out.Items[i] = SortMaps(s, ty.Elem, it)
+			out.Items[i] = SortMapsBy(s, ty.Elem, it, less)
 		}
 	case "map":
 		idx := make([]int, len(tv.Keys))
@@ -705,21 +708,21 @@ func SortMaps(s *Schema, typ string, tv TV) TV {
 			idx[i] = i
 		}
 		for i := 1; i < len(idx); i++ {
-			for j := i; j > 0 && val.LessLenFirst(tv.Keys[idx[j]], tv.Keys[idx[j-1]]); j-- {
+			for j := i; j > 0 && less(tv.Keys[idx[j]], tv.Keys[idx[j-1]]); j-- {
 				idx[j], idx[j-1] = idx[j-1], idx[j]
 			}
 		}
 		out.Keys = make([]string, len(tv.Keys))
 		for i, k := range idx {
 			out.Keys[i] = tv.Keys[k]
-			out.Items[i] = SortMaps(s, ty.Elem, tv.Items[k])
+			out.Items[i] = SortMapsBy(s, ty.Elem, tv.Items[k], less)
 		}
 	case "struct":
 		for i, it := range tv.Items {
-			out.Items[i] = SortMaps(s, ty.Fields[i].Type, it)
+			out.Items[i] = SortMapsBy(s, ty.Fields[i].Type, it, less)
 		}
 	case "union":
-		out.Items[0] = SortMaps(s, ty.Members[tv.Member].Type, tv.Items[0])
+		out.Items[0] = SortMapsBy(s, ty.Members[tv.Member].Type, tv.Items[0], less)
 	}
 	return out
 }
